@@ -376,4 +376,22 @@ impl Database {
         }
         Ok(plan)
     }
+
+    /// Verification hook: the physical layout of a table of the on-disk engine (`None` for the
+    /// in-memory engine or an unknown table).
+    pub async fn verif_layout(
+        &self,
+        table: &str,
+    ) -> Result<Option<Vec<crate::storage::verif::RowsetLayout>>, Error> {
+        let StorageImpl::SecondaryStorage(s) = &self.storage else {
+            return Ok(None);
+        };
+        let Some(id) = self
+            .catalog
+            .get_table_id_by_name(crate::catalog::RootCatalog::DEFAULT_SCHEMA_NAME, table)
+        else {
+            return Ok(None);
+        };
+        Ok(Some(s.verif_layout(id.table_id).await?))
+    }
 }
